@@ -141,6 +141,7 @@ def cached_arrays_not_updated_in_place(ctx, rule, qualnames):
     for q in qualnames:
         fi = model.func(q)
         defs, stored_in, read_from = {}, {}, {}
+        direct = set()
         for st in ast.walk(fi.node):
             if isinstance(st, ast.Assign) and len(st.targets) == 1:
                 t, v = st.targets[0], st.value
@@ -150,12 +151,36 @@ def cached_arrays_not_updated_in_place(ctx, rule, qualnames):
                         read_from.setdefault(t.id, set()).add(v.value.id)
                 if isinstance(t, ast.Subscript) and isinstance(t.value, ast.Name) and isinstance(v, ast.Name):
                     stored_in.setdefault(v.id, set()).add(t.value.id)
+                if isinstance(t, ast.Subscript) and isinstance(t.value, ast.Name) and isinstance(v, ast.Call) and \
+                        ast.unparse(v.func) in ARRAY_MAKERS:
+                    direct.add(t.value.id)          # `table[key] = numpy.array(..)`: the table holds arrays
+        # a nested helper that hands out an entry of a table (`def rows(u): ..; return table[u]`)
+        hands_out = {}
+        for fn in ast.walk(fi.node):
+            if isinstance(fn, ast.FunctionDef) and fn is not fi.node:
+                for r in ast.walk(fn):
+                    if isinstance(r, ast.Return) and isinstance(r.value, ast.Subscript) and isinstance(r.value.value, ast.Name):
+                        hands_out.setdefault(fn.name, set()).add(r.value.value.id)
+        for st in ast.walk(fi.node):
+            if isinstance(st, ast.Assign) and len(st.targets) == 1 and isinstance(st.targets[0], ast.Name):
+                v = st.value
+                if isinstance(v, ast.Call) and isinstance(v.func, ast.Name) and v.func.id in hands_out:
+                    read_from.setdefault(st.targets[0].id, set()).update(hands_out[v.func.id])
+        # plain aliases (`row = entry`) name the same array
+        changed = True
+        while changed:
+            changed = False
+            for nm, vs in defs.items():
+                for v in vs:
+                    if isinstance(v, ast.Name) and read_from.get(v.id, set()) - read_from.get(nm, set()):
+                        read_from.setdefault(nm, set()).update(read_from[v.id])
+                        changed = True
 
         def is_array(name):
             return any(isinstance(v, ast.Call) and ast.unparse(v.func) in ARRAY_MAKERS for v in defs.get(name, []))
 
         def holds_arrays(dname):
-            return any(dname in ds and is_array(nm) for nm, ds in stored_in.items())
+            return dname in direct or any(dname in ds and is_array(nm) for nm, ds in stored_in.items())
         for st in ast.walk(fi.node):
             if not (isinstance(st, ast.AugAssign) and isinstance(st.target, ast.Name)):
                 continue
@@ -661,6 +686,11 @@ def no_lazily_filled_attributes(ctx, rule, classes):
         if fi.cls is None or fi.cls.name not in classes:
             continue
         n += 1
+        # a cached_property keeps its value in the instance dictionary: it is copied with the object.  Accepted where every
+        # function of the class that re-points the object drops it again (the slicers: `_forget_cached`); on the value
+        # classes, whose contents change only in copies, the copy would answer with the original's value.
+        if fi.cls.name not in ('Slicer', 'PlateSlicer') and any('cached_property' in ast.unparse(d) for d in fi.node.decorator_list):
+            bad.append((fi, fi.node.lineno, f"self.{fi.name}", 'a cached_property of a value object'))
         parents = {}        # local: attributes set on the nodes would be followed by every later deepcopy of the tree
         for x in ast.walk(fi.node):
             for ch in ast.iter_child_nodes(x):
@@ -943,6 +973,16 @@ def no_writes_through_get(ctx, rule, classes=('Slicer', 'PlateSlicer', 'Plate'))
                                    isinstance(g.test, ast.Compare) and len(g.test.ops) == 1 and isinstance(g.test.ops[0], ast.NotEq) and
                                    ast.unparse(g.test.left) == f"{recv}.shape" and isinstance(g.test.comparators[0], ast.Tuple) and
                                    len(g.test.comparators[0].elts) == 2 for g in ast.walk(fi.node))
+                        if not rect and fi.qualname in ctx.model.funcs:
+                            # the shape test may sit in a private helper (`_require_single_well(frm)`): the main model has it
+                            # expanded in place, in front of the same assignment
+                            fx = ctx.model.funcs[fi.qualname]
+                            for x2 in ast.walk(fx.node):
+                                if isinstance(x2, ast.Assign) and x2.lineno == x.lineno and ast.unparse(x2.targets[0]) == ast.unparse(x.targets[0]):
+                                    rect = any(isinstance(g, ast.If) and _precedes_in_block(g, x2) and any(isinstance(b, ast.Raise) for b in g.body) and
+                                               isinstance(g.test, ast.Compare) and len(g.test.ops) == 1 and isinstance(g.test.ops[0], ast.NotEq) and
+                                               ast.unparse(g.test.left) == f"{recv}.shape" and isinstance(g.test.comparators[0], ast.Tuple) and
+                                               len(g.test.comparators[0].elts) == 2 for g in ast.walk(fx.node))
                         if not rect:
                             got[t_.id] = x.lineno
         if not got:
